@@ -244,7 +244,9 @@ seeds.append(t.write("reg-insert-at-pending-no-column.tape"))
 print("seeds:", " ".join(seeds))
 
 os.makedirs(os.path.join(ROOT, "findings"), exist_ok=True)
-with open(os.path.join(ROOT, "findings", "C09.json"), "w") as f:
+# (the 15 original findings now live in known_findings.json; findings/C09.json holds only not-yet-merged proposals, see
+# make_c15_probes.py - so this listing goes to a side file)
+with open(os.path.join(ROOT, "findings", "C09.generated.json"), "w") as f:
     json.dump({"findings": findings}, f, indent=1)
     f.write("\n")
 for x in findings:
